@@ -555,3 +555,55 @@ func VerifC19SkippedDataSuccessor() {
 	}
 	c19Finish([]*c19Prod{pa}, "a branch target that is skipped although it reads the branching node's stream")
 }
+
+// A streaming node with a plain edge to b and a multi-choice branch over c and d that selects nothing, one or both:
+// the copies of a's stream prepared for branch targets that are not selected are closed, so a's producer is released
+// when the caller stops reading (at any point), in both trigger modes.
+func VerifC19BranchSelectsNothing() {
+	ctx := context.Background()
+	vcfg("preempt", vtier())
+	vcfg("selectfirst", 1)
+	K := 2
+	pa := &c19Prod{key: "a", k: K}
+	pass := func() *Lambda {
+		return TransformableLambda(func(ctx context.Context, in *schema.StreamReader[map[string]any]) (*schema.StreamReader[map[string]any], error) {
+			return in, nil
+		})
+	}
+	g := NewGraph[map[string]any, map[string]any]()
+	_ = g.AddLambdaNode("a", pa.lambda(vchoose("cap", 2)))
+	_ = g.AddLambdaNode("b", pass(), WithOutputKey("b"))
+	_ = g.AddLambdaNode("c", pass(), WithOutputKey("c"))
+	_ = g.AddLambdaNode("d", pass(), WithOutputKey("d"))
+	_ = g.AddEdge(START, "a")
+	_ = g.AddEdge("a", "b")
+	sel := vchoose("select", 2) // nothing, or c (both targets selected multiplies the merge schedules beyond the quick budget)
+	_ = g.AddBranch("a", NewStreamGraphMultiBranch(func(ctx context.Context, in *schema.StreamReader[map[string]any]) (map[string]bool, error) {
+		in.Close()
+		switch sel {
+		case 1:
+			return map[string]bool{"c": true}, nil
+		case 2:
+			return map[string]bool{"c": true, "d": true}, nil
+		}
+		return map[string]bool{}, nil
+	}, map[string]bool{"c": true, "d": true}))
+	_ = g.AddEdge("b", END)
+	_ = g.AddEdge("c", END)
+	_ = g.AddEdge("d", END)
+	var opts []GraphCompileOption
+	if vchoose("dag", 2) == 1 {
+		opts = append(opts, WithNodeTriggerMode(AllPredecessor))
+	}
+	r, err := g.Compile(ctx, opts...)
+	vassert(err == nil, "graph compiles")
+	sr, err := r.Stream(ctx, map[string]any{"in": 1})
+	vassert(err == nil, "stream run starts")
+	readN := vchoose("readN", 3)
+	if readN == 2 {
+		c19ReadAll(sr)
+	} else {
+		c19Read(sr, readN)
+	}
+	c19Finish([]*c19Prod{pa}, "a multi-choice branch that selects fewer targets than it has, next to a plain edge")
+}
